@@ -243,7 +243,7 @@ func ruleAddVar(c *Ctx, r *Repo) {
 	ast.Inspect(ifs.Body, func(n ast.Node) bool {
 		if as, ok := n.(*ast.AssignStmt); ok && len(as.Rhs) == 1 {
 			if call, ok := as.Rhs[0].(*ast.CallExpr); ok && calleeName(info, call) == "golang.org/x/tools/go/packages.Load" && len(call.Args) == 2 {
-				if types.ExprString(call.Args[1]) == fd.Type.Params.List[len(fd.Type.Params.List)-1].Names[0].Name+".PkgPath" {
+				if newFuncCanon(info, fd).E(call.Args[1]) == "ARG3.PkgPath" {
 					okLoad = true
 					loadPkgs = objOf(info, as.Lhs[0].(*ast.Ident))
 				}
@@ -355,17 +355,23 @@ func ruleAddVar(c *Ctx, r *Repo) {
 	// else arm
 	okElse := false
 	if eb, ok := ifs.Else.(*ast.BlockStmt); ok {
-		s := nodeString(eb)
-		vr := fd.Type.Params.List[1].Names[0].Name
-		okElse = strings.Contains(s, "m.populateImports(ctx, "+vr+".Type())") && strings.Contains(s, vr+".Type();")
-		typOK := false
+		fca := newFuncCanon(info, fd)
+		isOwn := func(s string) bool { return strings.HasPrefix(s, "ARG1.Type<") && strings.HasSuffix(s, ".Type>()") && strings.Count(s, "<") == 1 }
+		popOK, typOK := false, false
 		ast.Inspect(eb, func(n ast.Node) bool {
-			if kv, ok := n.(*ast.KeyValueExpr); ok && types.ExprString(kv.Key) == "typ" && types.ExprString(kv.Value) == vr+".Type()" {
-				typOK = true
+			switch x := n.(type) {
+			case *ast.CallExpr:
+				if fn := calleeFunc(info, x); fn != nil && fn.Name() == "populateImports" && len(x.Args) == 2 && isOwn(fca.E(x.Args[1])) {
+					popOK = true
+				}
+			case *ast.KeyValueExpr:
+				if types.ExprString(x.Key) == "typ" && isOwn(fca.E(x.Value)) {
+					typOK = true
+				}
 			}
 			return true
 		})
-		okElse = okElse && typOK
+		okElse = popOK && typOK
 	}
 	c.Check(okElse, "R13.3", "AddVar|plain-var", r.Pos(ifs.Pos()), "without a replacement: own type, imports from populateImports", "without a replacement the variable is not rendered with its own type and the imports collected from it")
 }
